@@ -43,7 +43,7 @@ theorem readFinal_sound (hist : List Bytes) (peer : List CEv)
     | none => simp [readFinal, hp, fail] at h
     | some c => simp [readFinal, hp]
   | .challenge _ :: _ => simp [readFinal, fail] at h
-  | .failure :: _ => simp [readFinal, fail] at h
+  | .failure _ :: _ => simp [readFinal, fail] at h
   | .other :: _ => simp [readFinal, fail] at h
   | .otherNs :: _ => simp [readFinal, fail] at h
   | .space :: _ => simp [readFinal, fail] at h
@@ -107,7 +107,7 @@ theorem clientLoop_sound (mech : Mech) (peer : List CEv) : ∀ (hist : List Byte
           exact ⟨rfl, [c], [], p, c, rest, rfl, ⟨hm, hk⟩, by simp, rfl, hp, by simp, Or.inr (by simp [chalBytes])⟩
         | authnErr => simp [clientLoop, hp, hk, fail] at h
         | otherErr => simp [clientLoop, hp, hk, fail] at h
-    | failure => simp [clientLoop, fail] at h
+    | failure _ => simp [clientLoop, fail] at h
     | other => simp [clientLoop, fail] at h
     | otherNs => simp [clientLoop, fail] at h
     | space => simp [clientLoop, fail] at h
@@ -154,7 +154,7 @@ theorem clientLoopE_eq (mech : Mech) (peer : List CEv) : ∀ (env : CEnv) (i : N
         | none => simp [hp, fail] at h
         | some c =>
           cases hk : (mech (hist ++ [c])).kind <;> simp [clientLoop, hp, hk, fail] at h ⊢
-      | failure => simp [fail] at h
+      | failure _ => simp [fail] at h
       | other => simp [fail] at h
       | otherNs => simp [fail] at h
       | space => simp [fail] at h
